@@ -25,6 +25,11 @@ var c17Catalogue = []c17File{
 	{"a/sub/w.go", "example.com/m/a/sub", true, "package sub\n\nvar W = 4\n"},
 	// a sound package importing a package of the module with a type error inside a function body
 	{"c/u.go", "example.com/m/c", true, "package c\n\nimport \"example.com/m/bad\"\n\nvar U = bad.V\n"},
+	// a generated file: a //line directive above its package clause (template and grammar compilers
+	// write such files); positions inside it are reported in another file name
+	{"v/page.go", "example.com/m/v", true, "//line page.qtpl:1\npackage v\n\nvar P = 6\n"},
+	// the same directive below the package clause
+	{"v2/page.go", "example.com/m/v2", true, "package v2\n\n//line page.qtpl:1\nvar P = 7\n"},
 }
 
 const c17BadPkg = "package bad\n\nvar V = 5\n\nfunc f() {\n\tvar x int = \"s\"\n\t_ = x\n}\n"
@@ -96,9 +101,21 @@ func HC17_loadSources() {
 				continue
 			}
 			p := &packages.Package{ID: pk.pkg, PkgPath: pk.pkg}
-			for _, f := range c17Catalogue {
-				if f.pkg == pk.pkg {
-					p.GoFiles = append(p.GoFiles, base+"/"+f.rel)
+			if pk.pkg != "example.com/m/c" {
+				// parsed and type-checked by the real go/parser and go/types (Syntax, Fset, Types, GoFiles)
+				var names, srcs []string
+				for _, f := range c17Catalogue {
+					if f.pkg == pk.pkg {
+						names = append(names, base+"/"+f.rel)
+						srcs = append(srcs, f.content)
+					}
+				}
+				p = vfTypeCheck(pk.pkg, names, srcs, nil)
+			} else {
+				for _, f := range c17Catalogue {
+					if f.pkg == pk.pkg {
+						p.GoFiles = append(p.GoFiles, base+"/"+f.rel)
+					}
 				}
 			}
 			if pk.pkg == "example.com/m/c" { // its import has a type error: PrintErrors walks the import graph
